@@ -388,6 +388,27 @@ def check_reporters(case, acc, tmpdir):
     if not same(st['cagr'], d_cagr(got_c, periods), 1e-9, 1e-9):
         V('cagr/json', 'JSON cagr %r, expected %r' % (st['cagr'], d_cagr(got_c)))
     # the file says the same as the statistics object
+    # a second reporter object for another curve must not change what the first one holds or writes
+    snapshot = json.loads(json.dumps(js.statistics))
+    other_curve = pd.DataFrame({'Equity': [v * (1.0 + 0.002 * (i % 7)) for i, v in enumerate(bench)]}, index=ds)
+    with np.errstate(all='ignore'):
+        JSONStatistics(equity_curve=other_curve, target_allocations=alloc, periods=periods,
+                       output_filename=os.path.join(tmpdir, 'other.json'))
+    if not json_equal(json.loads(json.dumps(js.statistics)), snapshot):
+        V('json-object-changed-by-another', 'JSONStatistics.statistics of the first object changed when a second object was built '
+          'for another curve')
+    # the same frame analysed again after its Equity was revised: the results follow the new values
+    df_re = pd.DataFrame({'Equity': xs}, index=ds)
+    ts_obj = TearsheetStatistics(strategy_equity=df_re, periods=periods)
+    with np.errstate(all='ignore'):
+        ts_obj.get_results(df_re)
+        df_re['Equity'] = bench
+        again = ts_obj.get_results(df_re)
+    for nm in ('sharpe', 'max_drawdown', 'max_drawdown_duration'):
+        if not eqv(float(again[nm]), float(ts_bench[nm])):
+            V('tearsheet-stale-after-revision/%s' % nm, 'get_results on a frame whose Equity was revised reports %s=%r; a fresh '
+              'analysis of the same values gives %r' % (nm, again[nm], ts_bench[nm]))
+    acc.count('C17:reanalysis_checks')
     js.to_file()
     with open(path) as f:
         back = json.load(f)
